@@ -501,6 +501,8 @@ def harness_cases(tier, sd):
                     st["clean"] = False
                 if rnd.random() < 0.1:
                     st["gc"] = True
+                if "crash" not in st and rnd.random() < 0.12:
+                    st["via"] = "repl"     # started with run(), observed through its callback
                 steps.append(st)
                 nb += 1
             elif r < 0.6:
@@ -643,6 +645,7 @@ def pipeline(tier):
     res["n_traces"] = len(traces)
     res["events"] = sum(len(t["events"]) for t in traces)
     res["builds"] = sum(1 for t in traces for e in t["events"] if e["ev"] == "BuildBegin")
+    res["repl_builds"] = sum(1 for t in traces for st in (t.get("steps") or []) if st.get("via") == "repl")
     res["crashes"] = sum(1 for t in traces for e in t["events"] if e["ev"] == "Crash")
     res["crash_points_hit"] = sorted({"%s" % e.get("point") for t in traces for e in t["events"] if e["ev"] == "Crash"})
     res["child_errors"] = sum(1 for t in traces for e in t["events"] if e["ev"] == "ChildError")
@@ -725,6 +728,7 @@ def check(prop, tier):
         "design_runs": [{k: r[k] for k in ("shapes", "bounds", "distinct")} for r in res["design"]["runs"]],
         "design_stamp_variant": res["stamp"],
         "tlc_generated_histories_replayed": res["tlc_histories"], "real_histories": res["n_traces"], "real_builds": res["builds"],
+        "builds_started_with_run_builtin_and_observed_through_its_callback": res.get("repl_builds", 0),
         "process_deaths_injected": res["crashes"], "crash_points_hit": res["crash_points_hit"],
         "events_evaluated_by_monitor": res["events"], "distinct_histories": res["distinct_histories"],
         "linewriter_chunkings_executed": res.get("linewriter_cases", 0),
